@@ -116,7 +116,7 @@ impl Property for DocMixes {
         "document-mixes".into()
     }
     fn cases(&self, tier: Tier) -> u64 {
-        tier.pick(450, 6_000)
+        tier.pick(450, 3_000)
     }
     fn strategy(&self, ctx: &Ctx) -> BoxedStrategy<MixCase> {
         ((any::<u16>(), any::<u16>()), doc_case(ctx.tier.pick(2500, 9000))).prop_map(|(mix, doc)| MixCase { mix, doc }).boxed()
